@@ -53,6 +53,11 @@ func genC07Case(t *rapid.T) C07Case {
 			spec.SPs[i].SLO = []world.SLOSpec{{Binding: world.BindPost, Location: fmt.Sprintf("https://sp%d.example/slo", i)}}
 		}
 	}
+	if rapid.IntRange(0, 3).Draw(t, "request-scope") == 0 {
+		// the application's interceptor puts a value into the request context and the storage resolves its tenant from it:
+		// every storage call made for a request has to carry that request's context
+		spec.IdP.InterceptorNeutral, spec.RequireRequestScope = true, true
+	}
 	// the layout the IdP writes its own timestamps with is its own business: what it accepts from others is xs:dateTime
 	spec.IdP.TimeFormat = rapid.SampledFrom([]string{"", "", "", time.RFC3339, "2006-01-02T15:04:05.000Z", "2006-01-02T15:04:05Z"}).Draw(t, "idptimeformat")
 	c := C07Case{Kind: rapid.SampledFrom([]string{"authn", "authn", "authn", "logout", "attrquery"}).Draw(t, "kind"), BOM: rapid.IntRange(0, 4).Draw(t, "bom") == 0, Chunked: rapid.IntRange(0, 3).Draw(t, "chunked") == 0}
